@@ -117,6 +117,15 @@ fn frame_of(f: &Flow, a: usize, b: usize, framing: Framing) -> Vec<u8> {
             s.flags |= *r.pick(&[0x40u8, 0x80, 0xc0]);
         }
         s.window = r.u16();
+        // the flag bits of a data segment are the sender's business: without ACK (PSH alone, FIN|PSH, none at all),
+        // with FIN on any segment
+        match r.below(8) {
+            0 => s.flags &= !pkt::ACK,
+            1 => s.flags = (s.flags & !pkt::ACK) | pkt::FIN,
+            2 => s.flags = s.flags & 0xe0,
+            3 => s.flags |= pkt::FIN,
+            _ => {}
+        }
         if r.chance(1, 2) {
             s.tcp_opts = vec![1, 1, 8, 10, r.u8(), r.u8(), r.u8(), r.u8(), 0, 0, 0, 1];
         }
